@@ -224,15 +224,14 @@ func (m *verifC14Model) chanProducers(t, c int) int {
 // ---- the world: real code + model ----
 
 type verifC14Peer struct {
-	conn   *verifC14Conn
-	client *ClientV1
-	info   *PeerInfo
+	conn *verifC14Conn
+	info *PeerInfo
 }
 
 type verifC14World struct {
 	l     *NSQLookupd
-	p     *LookupProtocolV1
 	s     *httpServer
+	tcp   *tcpServer // connections are served by the real tcpServer.Handle
 	inact time.Duration
 	life  time.Duration
 	peers [verifC14NP]verifC14Peer
@@ -271,8 +270,8 @@ func verifC14NewWorld() *verifC14World {
 	l := &NSQLookupd{opts: opts, DB: NewRegistrationDB(),
 		tcpListener: verifC14Listener{4160}, httpListener: verifC14Listener{4161}}
 	return &verifC14World{
+		tcp:   &tcpServer{nsqlookupd: l},
 		l:     l,
-		p:     &LookupProtocolV1{nsqlookupd: l},
 		s:     &httpServer{nsqlookupd: l},
 		inact: inact,
 		life:  life,
@@ -297,8 +296,8 @@ func (w *verifC14World) send(p int, chunk []byte) (alive bool) {
 	return <-c.ev == verifC14Idle
 }
 
-// connect: a new nsqd connection; the real IOLoop starts and the peer's first command is a
-// well-formed IDENTIFY (real handler; the JSON body goes through the engine's encoding/json
+// connect: a new nsqd connection is accepted (real tcpServer.Handle -> IOLoop, running in its own
+// goroutine); the peer sends the V1 magic and then, as its first command, a well-formed IDENTIFY (real handler; the JSON body goes through the engine's encoding/json
 // contract model symbolically and through the real decoder natively).
 func (w *verifC14World) connect(p int) {
 	addr := "10.0.0.1:5000"
@@ -306,14 +305,16 @@ func (w *verifC14World) connect(p int) {
 		addr = "10.0.0.2:5000"
 	}
 	conn := &verifC14Conn{addr: addr, in: make(chan []byte, 1), ev: make(chan int, 1)}
-	client := NewClientV1(conn)
-	w.peers[p] = verifC14Peer{conn: conn, client: client}
-	verifrt.Go("ioloop", func() {
-		w.p.IOLoop(client)
+	// the whole accept path: tcpServer.Handle reads the protocol magic, creates the client, runs
+	// IOLoop and closes the connection afterwards
+	w.peers[p] = verifC14Peer{conn: conn}
+	verifrt.Go("handle", func() {
+		w.tcp.Handle(conn)
 		conn.ev <- verifC14Gone
 	})
 	first := <-conn.ev
-	verifrt.Assert(first == verifC14Idle, "ioloop-waits-for-the-first-command")
+	verifrt.Assert(first == verifC14Idle, "handle-waits-for-the-protocol-magic")
+	verifrt.Assert(w.send(p, []byte("  V1")), "handle-accepts-the-v1-magic")
 	body, _ := json.Marshal(verifC14Identify{
 		BroadcastAddress: verifC14Host(p),
 		Hostname:         verifC14Host(p),
@@ -329,7 +330,13 @@ func (w *verifC14World) connect(p int) {
 	t1 := verifC14Clock()
 	_, answered := conn.takeFrame()
 	verifrt.Assert(alive && answered, "identify-accepted-and-answered")
-	info := client.peerInfo
+	// the client object lives inside Handle: find the peer by its connection id
+	var info *PeerInfo
+	for _, pr := range w.l.DB.FindProducers("client", "", "") {
+		if pr.peerInfo.id == addr {
+			info = pr.peerInfo
+		}
+	}
 	verifrt.Assert(info != nil, "identify-records-the-peer")
 	if info != nil {
 		verifrt.Assert(info.BroadcastAddress == verifC14Host(p) && info.Hostname == verifC14Host(p) &&
@@ -348,6 +355,7 @@ func (w *verifC14World) exec(p int, line string) (resp []byte, alive bool) {
 	alive = w.send(p, []byte(line+"\n"))
 	resp, _ = w.peers[p].conn.takeFrame()
 	if !alive {
+		verifrt.Assert(w.peers[p].conn.closed == 1, "handle-closes-the-connection-once")
 		w.sawFatal = true
 		w.forget(p)
 	}
@@ -360,6 +368,7 @@ func (w *verifC14World) disconnect(p int) {
 	close(c.in)
 	last := <-c.ev
 	verifrt.Assert(last == verifC14Gone, "ioloop-returns-on-eof")
+	verifrt.Assert(c.closed == 1, "handle-closes-the-connection-once")
 	w.forget(p)
 }
 
@@ -756,11 +765,61 @@ func (w *verifC14World) checkNodes() {
 	}
 }
 
-// the time-independent endpoints (no path forks)
+// the time-independent endpoints (no path forks), and the state correspondence
 func (w *verifC14World) checkKeys() {
 	w.checkTopics()
 	for t := 0; t < verifC14NT; t++ {
 		w.checkChannels(t)
+	}
+	w.checkState()
+}
+
+// State correspondence (the inductive strengthening that lets one-step checks speak for long
+// histories): the producers the registry holds under every key are exactly the model's
+// registrations. Channel registrations are not shown by any of the four endpoints directly, but
+// a stale one changes later answers (an ephemeral channel that never empties, a /nodes entry).
+func (w *verifC14World) assertProducerSet(pp Producers, want [verifC14NP]bool, label string) {
+	var cnt [verifC14NP]int
+	foreign := 0
+	for _, pr := range pp {
+		hit := false
+		for p := 0; p < verifC14NP; p++ {
+			if w.peers[p].info != nil && pr.peerInfo == w.peers[p].info {
+				cnt[p]++
+				hit = true
+			}
+		}
+		if !hit {
+			foreign++
+		}
+	}
+	verifrt.Assert(foreign == 0, label+"-only-live-connections")
+	for p := 0; p < verifC14NP; p++ {
+		if want[p] {
+			verifrt.Assert(cnt[p] == 1, label+"-holds-every-registration-once")
+		} else {
+			verifrt.Assert(cnt[p] == 0, label+"-holds-no-stale-registration")
+		}
+	}
+}
+
+func (w *verifC14World) checkState() {
+	m := &w.m
+	db := w.l.DB
+	w.assertProducerSet(db.FindProducers("client", "", ""), m.conn, "state-clients")
+	for t := 0; t < verifC14NT; t++ {
+		var want [verifC14NP]bool
+		for p := 0; p < verifC14NP; p++ {
+			want[p] = m.conn[p] && m.rt[t][p]
+		}
+		w.assertProducerSet(db.FindProducers("topic", verifC14Topic(t), ""), want, "state-topic")
+		for c := 0; c < verifC14NC; c++ {
+			var wantC [verifC14NP]bool
+			for p := 0; p < verifC14NP; p++ {
+				wantC[p] = m.conn[p] && m.rc[t][c][p]
+			}
+			w.assertProducerSet(db.FindProducers("channel", verifC14Topic(t), verifC14Chan(c)), wantC, "state-channel")
+		}
 	}
 }
 
